@@ -257,8 +257,9 @@ class _CauseDeque(collections.deque):
     jobs sees what it would see without the harness. The cause lives in a side table keyed by entry identity and
     becomes the world's current cause when the entry is taken out."""
 
-    def __init__(self, world):
-        super().__init__()
+    def __init__(self, world, original=None):
+        # keep what the library chose for its queue (a bound, items already queued)
+        super().__init__(original if original is not None else (), getattr(original, "maxlen", None))
         self._world = world
         self._causes = {}
 
@@ -437,7 +438,7 @@ class World:
             return real_send(message)
 
         transport.send = recording_send
-        gw.tasks.queue = _CauseDeque(world)
+        gw.tasks.queue = _CauseDeque(world, gw.tasks.queue)
         if hasattr(gw.tasks, "_stop_event"):
             gw.tasks._stop_event = _PumpStopEvent()
         self.pstarted = False
